@@ -14,6 +14,16 @@ structure Cfg where
   stopTimeout : Nat := 10000          -- --stop-timeout (ms)
   deriving Repr
 
+/-- `EventsArgs::normalise`: `--signal` implies signal mode whatever `--on-busy-update` says; else `-r` means restart; else
+    the given mode, do-nothing by default (`-r` and `--on-busy-update` exclude each other in the argument parser) -/
+def normaliseMode (explicitMode : Option Mode) (restartFlag : Bool) (signal : Option Sig) : Mode :=
+  if signal.isSome then .signal else if restartFlag then .restart else explicitMode.getD .doNothing
+
+/-- `--signal` is documented to imply `--on-busy-update=signal` — also next to an explicit other mode -/
+theorem signal_flag_implies_signal_mode (m : Option Mode) (r : Bool) (g : Sig) : normaliseMode m r (some g) = .signal := rfl
+theorem restart_flag_means_restart (m : Option Mode) : normaliseMode m true none = .restart := rfl
+theorem default_mode_is_do_nothing : normaliseMode none false none = .doNothing := rfl
+
 /-- SIGTERM -/
 def term : Sig := 15
 
